@@ -15,9 +15,10 @@ import DitModel.Drv.AuxJoint
 import DitModel.Drv.Examples
 import DitModel.Drv.SigAlg
 import DitModel.Drv.SetPart
+import DitModel.Drv.Hidden
 open Dit Dit.Drv
 
-def handlers : List (String × (J → Option J)) := basicHandlers ++ simplexHandlers ++ infoHandlers ++ opsHandlers ++ constrHandlers ++ divergeHandlers ++ pidHandlers ++ channelHandlers ++ meetHandlers ++ maxentHandlers ++ auxHandlers ++ exampleHandlers ++ sigalgHandlers ++ setpartHandlers
+def handlers : List (String × (J → Option J)) := basicHandlers ++ simplexHandlers ++ infoHandlers ++ opsHandlers ++ constrHandlers ++ divergeHandlers ++ pidHandlers ++ channelHandlers ++ meetHandlers ++ maxentHandlers ++ auxHandlers ++ exampleHandlers ++ sigalgHandlers ++ setpartHandlers ++ hiddenHandlers
 
 def answer (line : String) : String :=
   let line := line.trimAscii.toString
